@@ -24,6 +24,10 @@ def run_program(prog: dict) -> list[dict]:
     A = tables.materialise(prog["init"]["A"])
     B = tables.materialise(prog["init"]["B"])
     events = []
+    # every Molecules object the session has seen, with the table it must still hold: only the receiver of an `append` may
+    # change, and only itself (a result that IS an earlier object would drag that object along)
+    tracked = [[A, tables.project(A)], [B, tables.project(B)]]
+    frozen: list = []
     for step, op in enumerate(prog["prog"]):
         if op["name"] == "swap":
             A, B = B, A
@@ -40,6 +44,19 @@ def run_program(prog: dict) -> list[dict]:
             groups=list(groups),
             groups2=list(groups.second) if getattr(groups, "second", None) is not None else list(groups),
         )
+        altered = 0
+        for ent in tracked:
+            if ent[0] is A and op["name"] in ("append", "append_extra") and not any(fz is A for fz in frozen):
+                ent[1] = tables.project(A)            # the one legitimate in-place change
+            elif tables.project(ent[0]) != ent[1]:
+                altered += 1
+        out["earlier_altered"] = altered
+        if res is not None and op["name"] not in ("append", "append_extra", "peek") and (res is A or res is B):
+            # an operation with copy semantics handed back one of its operands: the caller still holds that operand under its
+            # old name, so from now on NOTHING may change it, not even an append on the "result"
+            frozen.append(res)
+        if res is not None and not any(ent[0] is res for ent in tracked):
+            tracked.append([res, tables.project(res)])
         events.append(dict(id=f"{prog['pid']}:{step}", op=op, A=preA, B=preB, out=out))
         if not err and res is not None and op["name"] != "peek":
             A = res
@@ -112,6 +129,19 @@ def run(rep: engine.Report, tier: str, seed: int):
     nsand = len(sand)
     sand = engine.stratified_sample(sand, lambda p: (p["prog"][0]["name"], p["prog"][2]["name"], len(p["init"]["B"]["cols"])), 1500 if quick else len(sand), seed)
     _judge(rep, sand, "sandwich")
+    # 2c. any operation followed by an in-place append on its RESULT: an operation must not hand back one of its operands
+    al = rep.add_tlc(engine.tlc("TblMachine", "EMIT_C12a", workers=1, timeout=1800, tag="alias"))
+    seen2, alias = set(), []
+    for p in al.emitted:
+        k = json.dumps(p, sort_keys=True)
+        if k not in seen2 and len(p["prog"]) == 2:
+            seen2.add(k)
+            alias.append(dict(pid=f"a{len(alias)}", init=p["init"], prog=p["prog"], seed=seed))
+    if not alias:
+        raise engine.MachineryError("EMIT_C12a emitted nothing")
+    nalias = len(alias)
+    alias = engine.stratified_sample(alias, lambda p: (p["prog"][0]["name"], len(p["init"]["B"]["rows"]), len(p["init"]["A"]["rows"])), 1200 if quick else len(alias), seed)
+    _judge(rep, alias, "alias")
     # 3. long behaviours from TLC's simulator
     num = 400 if quick else 4000
     sim = rep.add_tlc(
@@ -168,6 +198,7 @@ def run(rep: engine.Report, tier: str, seed: int):
         "events = real Molecules calls recorded while running TLC-generated programs: every (table state, operation) "
         "pair explored by TLC to depth 1 from all initial tables of 0..3 rows (k in 0..2 freely chosen; nullable v, s), "
         f"{len(sand)} of {nsand} query/in-place-append/any-operation sandwiches (3 steps, all from the 2-row tables), "
+        f"{len(alias)} of {nalias} two-step programmes 'any operation, then an in-place append on its result' (incl. empty operands), "
         f"and {len(progs)} random behaviours of 6 operations from TLC -simulate; each event is judged by TLC against "
         "TblOps!Accepts; non-trivial = distinct (operation+arguments, pre-state A, B)"
         + (f"; thorough: {nrepo} top-level table operations made by the repository's own tests, projected (uids by pose, rank features) and judged the same way" if nrepo else "")
@@ -190,7 +221,7 @@ def replay_file(path: str) -> int:
     A = tables.materialise(ev["A"])
     B = tables.materialise(ev["B"])
     res, err, groups = tables.execute(ev["op"], A, B)
-    out = dict(A=tables.project(A), B=tables.project(B), res=tables.project(res) if res is not None else tables.NOTAB, err=err, groups=list(groups), groups2=list(groups.second) if getattr(groups, "second", None) is not None else list(groups))
+    out = dict(A=tables.project(A), B=tables.project(B), res=tables.project(res) if res is not None else tables.NOTAB, err=err, groups=list(groups), groups2=list(groups.second) if getattr(groups, "second", None) is not None else list(groups), earlier_altered=0)
     e2 = dict(id="replay", op=ev["op"], A=ev["A"], B=ev["B"], out=out)
     _, verdict = engine.validate_trace("Trace_Tbl", [e2], tag="replay")
     print(json.dumps(dict(event=e2, verdict=verdict), indent=1))
